@@ -36,6 +36,8 @@ func c20(c *Ctx) {
 	c20R9(c)
 	c20R10(c)
 	c20R11(c)
+	c20R12(c)
+	c20R13(c)
 }
 
 func c20R1(c *Ctx) {
@@ -451,7 +453,9 @@ func c20R8(c *Ctx) {
 			c.R.Ob(rule, "return-true⊣nothing-pending-or-write-error", ok, c.Pos(r), fname(f), shorten(guardsText(f, r)))
 		} else {
 			nFalse++
-			ok := f.HasGuard(r, func(g string) bool { return strings.Contains(g, "writeMsgPacketTo(") && strings.HasSuffix(g, "#1 == nil)") })
+			ok := f.HasGuard(r, func(g string) bool {
+				return strings.Contains(g, "writeMsgPacketTo(") && strings.HasSuffix(g, "#1 == nil)")
+			})
 			c.R.Ob(rule, "return-false⊣packet-written", ok, c.Pos(r), fname(f), shorten(guardsText(f, r)))
 		}
 	}
